@@ -46,6 +46,9 @@ def run(run, model):
     # the error of the violated postcondition is raised, not an error from locating the decorator in the file
     from . import msg
     run.do(msg.scan_bounds, model, "C02.error-raised-scan")
+    # ... and the re-computation of the simple node kinds does not fail where Python's own evaluation succeeded
+    from . import rec
+    run.do(rec.simple_nodes, model, "C02.error-raised-nodes")
     run.minimum("C02.gate", 2)
     run.minimum("C02.result-identity", 11, "two returns per marker wrapper, one in the __new__ wrapper")
     run.minimum("C02.exc-transparent", 11)
